@@ -95,6 +95,13 @@ C05|C07)
   bridge
   EXTRA_ARGS="-bin $W/goose -bridge $W/gooseb"
   ;;
+C06)
+  instr $REPO/interface.go=sync,go,chan,yieldloops,load
+  build "$W/bin" ./cmd/$LC -overlay "$W/ov.json" || exit 3
+  (cd $REPO && go build -o "$W/goose" ./cmd/goose) || { echo "harness error: goose does not build" >&2; exit 3; }
+  (cd $REPO && go build -race -o "$W/goose_race" ./cmd/goose) || { echo "harness error: goose -race does not build" >&2; exit 3; }
+  EXTRA_ARGS="-bin $W/goose -race $W/goose_race"
+  ;;
 *) echo "unknown property $ID" >&2; exit 3;;
 esac
 
